@@ -110,6 +110,21 @@ def fixed_cases():
         ("c := mut 1.5; c <<= 1", "float <<="),
     ]:
         add(prog, Rejected(), "must be rejected: " + what)
+    # ---- typed content through JOINS: a value that is one of two cells of different types (if / match / function result /
+    # tuple or array element) is not a cell that takes either content
+    _prods = [("if", "x := if p { a } else { b };"), ("match", "x := match p { true => a, => b, };"),
+              ("tuple", "t := (a, b); x := if p { t.0 } else { t.1 };"), ("array", "x := [a, b][if p { 0 } else { 1 }];"),
+              ("fn_result", "x := pick(p);"), ("block", "x := { if p { a } else { b } };")]
+    _writes = [("assign_float", "x = 7.5"), ("assign_int", "x = 7"), ("compound", "x += 1"), ("pass_mut_union", "w(x)")]
+    _ctx = ("a := mut 1; b := mut 2.5; w := (m: mut (int|float)) { m = 0.5 }; "
+            "pick := (q: bool) -> mut int | mut float { if q { return a } return b }; ")
+    for pn, ptxt in _prods:
+        for wn, wtxt in _writes:
+            add(_ctx + f"f := (p: bool) -> any {{ {ptxt} {wtxt}; return (*a, *b) }}; f(true)", Rejected(),
+                f"must be rejected: write ({wn}) through a join of mut int and mut float ({pn})")
+        # reading through the join is fine
+    add(_ctx + "f := (p: bool) -> any { x := if p { a } else { a }; x = 9; return (*a, *b) }; f(true)", (9, 2.5),
+        "join of two mut int cells can be written")
     # ---- every compound operator on boundary operands: stores and yields content op v
     vals = [0, 1, -1, 2, 3, -7, 63, 64, 1 << 32, MAX, MIN]
     for op in OPS_TOTAL + OPS_FALLIBLE:
